@@ -104,7 +104,7 @@ class PacketRecorder:
 
 
 class Req:
-    __slots__ = ("rid", "client", "cmd", "pos", "off", "idx", "payload", "args",
+    __slots__ = ("master", "rid", "client", "cmd", "pos", "off", "idx", "payload", "args",
                  "data", "size", "fits", "submit_seq", "outcome", "value",
                  "cancel_kind", "wire", "done_seq", "short_timeout", "expect_fmt")
 
@@ -228,6 +228,8 @@ def run_workload(tape, *, faults=True, fmt_args=False, oversize=True, cancels=Tr
     env = Env(tape, faults=wf, with_kernel=fast_master)
     world = env.world
     bus = env.bus
+    # (an interface configured for jumbo frames: an EtherCAT frame is 1500 bytes all the same)
+    bus.mtu = tape.pick("cfg/interface-mtu", [1500, 1500, 1500, 9000, 4000])
     stations = [1001, 1002, 1003]
     for k, st in enumerate(stations):
         t = bus.add_terminal(SimTerminal(bus, f"T{k}", station=st, n_sm=0, n_fmmu=0))
@@ -357,12 +359,16 @@ def run_workload(tape, *, faults=True, fmt_args=False, oversize=True, cancels=Tr
     else:
         ec = EtherCat("sim0")
 
+    # (with a second master on the interface the index draws are left alone: an index one
+    # master has under way is as good as any other for the other master, 1 in 10**9)
+    second = [None]
+    second_master = not fast_master and n_clients >= 2 and tape.chance("wl/second-master", 25)
     # the packet index is a 30-bit random number; bias the draw towards indices that are
     # still in flight so that the collision retry of roundtrip_packet is exercised, and
     # (behind the dispatcher) towards indices that look like a sync group's slot number in
     # their low 6, 8 or 16 bits
     def collide(a, b):
-        if (a, b) == (2000, 1000000000) and ec.wait_futures and \
+        if (a, b) == (2000, 1000000000) and ec.wait_futures and not second_master and \
                 tape.chance("collide/packet-index", 15):
             world.count("probe/packet-index-collision-offered")
             keys = sorted(ec.wait_futures)
@@ -396,7 +402,7 @@ def run_workload(tape, *, faults=True, fmt_args=False, oversize=True, cancels=Tr
         kwargs = {"idx": r.idx}
         if r.data is not None:
             kwargs["data"] = r.data
-        coro = ec.roundtrip(cmd, r.pos, r.off, *r.args, **kwargs)
+        coro = r.master.roundtrip(cmd, r.pos, r.off, *r.args, **kwargs)
         if isinstance(r.data, bytearray):
             # (runs once this task yields, i.e. after roundtrip() has queued the request)
             asyncio.get_event_loop().call_soon(reuse_buffer, r.data)
@@ -426,6 +432,7 @@ def run_workload(tape, *, faults=True, fmt_args=False, oversize=True, cancels=Tr
 
     async def client(cid):
         n = 1 + tape.draw("wl/nreq", 12 if n_clients > 4 else 30)
+        master = second[0] if second[0] is not None and cid % 2 else ec
         for _ in range(n):
             pause = tape.draw("wl/pause", 6)
             if pause == 1:
@@ -433,6 +440,7 @@ def run_workload(tape, *, faults=True, fmt_args=False, oversize=True, cancels=Tr
             elif pause >= 2:
                 await asyncio.sleep([0, 0, 20e-6, 100e-6, 400e-6, 2e-3][pause])
             r = new_request(cid)
+            r.master = master
             if cancels and tape.chance("cancel/short-timeout", 8):
                 r.short_timeout = [0, 30e-6, 60e-6, 100e-6, 250e-6][
                     tape.draw("cancel/timeout", 5)]
@@ -440,12 +448,20 @@ def run_workload(tape, *, faults=True, fmt_args=False, oversize=True, cancels=Tr
             if burst:
                 # several requests submitted in the same loop iteration
                 rs = [r] + [new_request(cid) for _ in range(1 + tape.draw("wl/burstn", 16))]
+                for x in rs:
+                    x.master = master
                 await asyncio.gather(*[do_request(x) for x in rs])
             else:
                 await do_request(r)
 
     async def main(loop):
         await ec.connect()
+        if second_master:
+            # another program's master on the same interface (a diagnostic tool): its
+            # frames reach our socket as ours reach its
+            second[0] = EtherCat("sim0")
+            await second[0].connect()
+            world.count("wl/second-master-on-the-interface")
         for cid in range(n_clients):
             client_tasks.append(asyncio.ensure_future(client(cid)))
         if cancels:
@@ -530,6 +546,12 @@ def run_workload(tape, *, faults=True, fmt_args=False, oversize=True, cancels=Tr
     # (2) wire order == submission order (for the requests that were sent)
     sent_order = [i for i in wire_order if i in by_ident]
     expect_order = [i for i in sub_order if i in wire_seen]
+    if second[0] is not None:
+        # two masters, two send queues: the order is per master
+        mine = {r.wire for r in submitted if getattr(r, "master", None) is second[0]}
+        sent_order = [i for i in sent_order if i not in mine] + [i for i in sent_order if i in mine]
+        expect_order = [i for i in expect_order if i not in mine] \
+            + [i for i in expect_order if i in mine]
     if sent_order != expect_order:
         k = next(k for k, (a, b) in enumerate(zip(sent_order, expect_order)) if a != b)
         viol("wire-order", f"position {k}: wire {sent_order[k]} but submitted "
